@@ -30,9 +30,10 @@
    of Sem.v (this is the C01 simulation invariant; the model's resolution on contexts is tied to the
    implementation by the correspondence run instead).
 
-   KNOWN DEFECTS: F10 - `>=` against a tag builds Range::with_end, an UPPER bound (class
-   K-ge-tag-hint); F17 - a null tag value panics in Range::with_end/with_start / as_slice (class
-   K-null-tag-hint).  Witnesses below; the soundness theorems exclude exactly these. *)
+   KNOWN DEFECT: F10 - `>=` against a tag builds Range::with_end, an UPPER bound (class
+   K-ge-tag-hint).  Witnesses below; the soundness theorems exclude exactly this.
+   F17 (a null tag value panicked in Range::with_end/with_start / as_slice) is REPAIRED in /repo: the
+   model returns Impossible there, proved sound, with regression Examples on the former witnesses. *)
 From TF Require Import Ty Hints HintsProofs.
 From TF Require Import Exec Sem Sim SimComp SimOut SimGen WfCheck HintsEngine.
 Local Open Scope string_scope.
@@ -132,31 +133,53 @@ Theorem C04_dynamic_hint_ge_tag_refuted_on_query :
 Proof. exact dynamic_hint_ge_tag_refuted_query. Qed.
 Print Assumptions C04_dynamic_hint_ge_tag_refuted_on_query.
 
-(* F17.  Full statement (false): resolving a dynamic hint on a context that holds everything the
-   hint refers to never panics:
-     forall q g dv c, ... -> exists k, dyn_resolve q g dv c = Ok k *)
-Theorem C04_dynamic_hint_null_tag_refuted :
-  (exists s, cand_from_op true LessThan All (TSome Null) = Panic s) /\
-  (exists s, cand_from_op true GreaterThan All (TSome Null) = Panic s) /\
-  (exists s, cand_from_op true OneOf All (TSome Null) = Panic s) /\
-  k_null_tag_hint LessThan Null = true /\ k_null_tag_hint OneOf Null = true.
-Proof. exact dynamic_hint_null_tag_refuted_lemma. Qed.
-Print Assumptions C04_dynamic_hint_null_tag_refuted.
+(* F17 (REPAIRED in /repo, commit 9aed43b): a null tag value used to panic in Range::with_end /
+   with_start / as_slice.  compute_candidate_from_operation now answers Impossible for <, <=, >, >=, one_of ... *)
+Theorem C04_null_tag_gives_impossible :
+  forall op init, is_cmp_op op = true \/ op = OneOf -> cand_from_op true op init (TSome Null) = Ok Impossible.
+Proof. exact cand_from_op_null_impossible. Qed.
+Print Assumptions C04_null_tag_gives_impossible.
+
+(* ... which is sound: against a null operand these filters hold for no value (so no value at all may
+   be excluded from the candidate wrongly) *)
+Theorem C04_null_tag_filter_fails :
+  forall re op v, is_cmp_op op = true \/ op = OneOf -> filter_passes re op true v (Some (TSome Null)) = false.
+Proof. exact null_tag_filter_fails. Qed.
+Print Assumptions C04_null_tag_filter_fails.
+
+(* resolving a context-field / imported tag never panics on a well-typed tag value (a one_of operand
+   is a list or null): no class is excluded *)
+Theorem C04_dynamic_hint_no_panic :
+  forall op init w, f_cand_ok init = true -> wf w = true -> dyn_supported_op op = true ->
+    (op = OneOf -> w = Null \/ exists l, w = List l) ->
+    exists k, cand_from_op true op init (TSome w) = Ok k /\ f_cand_ok k = true.
+Proof. exact dynamic_hint_no_panic. Qed.
+Print Assumptions C04_dynamic_hint_no_panic.
+
+(* regression on the former F17 witnesses *)
+Example C04_dynamic_hint_null_tag_regression :
+  cand_from_op true LessThan All (TSome Null) = Ok Impossible /\
+  cand_from_op true GreaterThan All (TSome Null) = Ok Impossible /\
+  cand_from_op true GreaterThanOrEqual All (TSome Null) = Ok Impossible /\
+  cand_from_op true OneOf All (TSome Null) = Ok Impossible.
+Proof. exact dynamic_hint_null_tag_regression_lemma. Qed.
+Print Assumptions C04_dynamic_hint_null_tag_regression.
 
 (*   query { Thing { score @tag(name: "t") id @output link { score @filter(op: "<", value: ["%t"]) @output(name: "o2") } } }
-   with a tagged vertex that has no score *)
-Theorem C04_dynamic_hint_null_tag_refuted_on_query :
+   with a tagged vertex that has no score: the model of resolve() returns Impossible *)
+Example C04_dynamic_hint_null_tag_regression_on_query :
   let q := q_of rq_f17 in
   let vi := mkVI false 1 2 (FExcl 2) false false in
   let dv := mkDV 1 (FRContext (mkCF 1 "score" ty_int)) LessThan All in
     lower_query rq_f17 = Ok q /\
     resolve_edge_info_destination q 1 2 1 = Ok vi /\
     dynamically_required q [] vi "score" = Ok (Some dv) /\
-    dyn_resolve q (graph_of_dataset ds_f10) dv ctx_f10 = Panic "candidates.rs:assert cannot bound range with null value".
-Proof. exact dynamic_hint_null_tag_refuted_query. Qed.
-Print Assumptions C04_dynamic_hint_null_tag_refuted_on_query.
+    dyn_resolve q (graph_of_dataset ds_f10) dv ctx_f10 = Ok Impossible.
+Proof. exact dynamic_hint_null_tag_regression_query. Qed.
+Print Assumptions C04_dynamic_hint_null_tag_regression_on_query.
 
-(* outside K-null-tag-hint resolution cannot panic in compute_candidate_from_operation *)
+(* (for either resolution function, incl. resolve_fold_specific_field whose values are fold counts:
+   no panic unless a range is bounded by null / a non-list is read as a list) *)
 Theorem C04_dynamic_hint_no_panic_outside :
   forall nr op init w,
     f_cand_ok init = true -> wf w = true -> dyn_supported_op op = true ->
@@ -336,8 +359,7 @@ Theorem C04_engine_pruning_invisible :
 Proof. exact engine_pruning_invisible. Qed.
 Print Assumptions C04_engine_pruning_invisible.
 
-(* ... with the adapter pruning by the hints of the vertex being produced (outside K-ge-tag-hint;
-   resolutions that would panic, K-null-tag-hint, are not used); static side conditions as the
+(* ... with the adapter pruning by the hints of the vertex being produced (outside K-ge-tag-hint); static side conditions as the
    computable test WfCheck.spec_hyps *)
 Theorem C04_engine_pruning_by_hints_invisible :
   forall re g args q rows_pruned rows_plain,
